@@ -62,6 +62,7 @@ RECS = {
     "r6": ({"port": 81}, True),            # collides under ignore_port
     "r7": ({"h": "B"}, True),              # differs only under use_headers=[h]
     "r8": ({"target": "/p?x=3&x=1"}, True),  # repeated parameter name; the last value equals r0's, an earlier one is extra
+    "r9": ({"target": "//a/p?x=1"}, True),   # path begins with two slashes (origin-form targets may: the path is //a/p)
 }
 REQS = {
     "q0": {},
@@ -76,6 +77,12 @@ REQS = {
     "q9": {"method": "PUT"},               # never equal
     "qa": {"target": "/p?x=2&x=1"},        # repeated name: equal to no recording unless x is ignored (differs from r8 in the earlier value)
     "qb": {"target": "/p?x=3&x=1"},        # equal to r8
+    # odd but legal origin-form targets whose path differs from /p (never equal to a /p recording)
+    "qc": {"target": "//a/p?x=1"},         # path //a/p (equal to r9 only)
+    "qd": {"target": "/p;v=1?x=1"},        # path /p;v=1 - ";v=1" belongs to the path (RFC 3986 3.3)
+    "qe": {"target": "//b/p?x=1"},         # path //b/p
+    "qf": {"target": "/p;v=2?x=1"},        # path /p;v=2
+    "qg": {"target": "/p/?x=1"},           # path /p/
 }
 TOGGLES = {
     "ignore_host": ("server_replay_ignore_host", False, True),
@@ -92,9 +99,21 @@ EXTRAS = ["forward", "kill", "204"]
 # recording order interleaves the near-colliding recordings with the two fully equal ones
 # (the response-less r3 is not last, so that a recording appended later competes with a servable older one)
 INITIAL = ["r0", "r2", "r4", "r3", "r1"]
-QUICK = {"initial": INITIAL, "addable": ["r5"], "requests": ["q0", "q1", "q2", "q3", "q4", "qa"]}
-THOROUGH = {"initial": INITIAL, "addable": ["r5", "r6", "r7", "r8"],
-            "requests": ["q0", "q1", "q2", "q3", "q4", "q5", "q6", "q7", "q8", "q9", "qa", "qb"]}
+QUICK = {"initial": INITIAL, "addable": ["r5"], "requests": ["q0", "q1", "q2", "q3", "q4", "qa", "qc", "qd"]}
+THOROUGH = {"initial": INITIAL, "addable": ["r5", "r6", "r7", "r8", "r9"],
+            "requests": ["q0", "q1", "q2", "q3", "q4", "q5", "q6", "q7", "q8", "q9", "qa", "qb", "qc", "qd", "qe", "qf", "qg"]}
+
+
+def target_kind(target):
+    """coarse class of a request target (feature only)"""
+    path = target.split("?", 1)[0]
+    if path.startswith("//"):
+        return "leading_double_slash"
+    if ";" in path:
+        return "semicolon_in_path"
+    if path.endswith("/") and len(path) > 1:
+        return "trailing_slash"
+    return "plain"
 
 
 def desc(diff):
@@ -305,7 +324,9 @@ class Spec:
             known = served in RECS and served in s.recorded
             rk = mkey(desc(RECS[served][0]), s.opts) if known else None
             self._judge(s, "served_only_on_equal_key", known and rk == qk,
-                        {"op": "request", "differs": key_difference(rk, qk) if known else "unknown_recording"},
+                        {"op": "request", "differs": key_difference(rk, qk) if known else "unknown_recording",
+                         "request_target": target_kind(d["target"]),
+                         "recording_target": target_kind(desc(RECS[served][0])["target"]) if known else "?"},
                         {"request_key": qk}, dict(obs, recording_key=rk))
         else:
             s.step["ok"].append("served_only_on_equal_key")
